@@ -29,7 +29,7 @@ RULE = ("Hypothesis configurations: 1-5 named streams (ASCII, Unicode, empty, bl
         "names, replication numbers 0-8, list-length boundaries (len-1, len, len+1), 10**6, 2**40, 2**64, negative, "
         "float, str, None; two listing orders. In-process oracle: listed stream -> seed == table[name][r] and draws "
         "of a fresh stream with that seed; unlisted stream -> exactly what get_fallback_stream_updater() alone gives "
-        "(also with a custom fallback double); both listing orders, sub-/supersets of the streams, singletons and any "
+        "(also with a custom fallback double); both listing orders, sub-/supersets of the streams, singletons, two StreamInformation sets (default stream included) updated one after the other, and any "
         "prior history give every stream the same (seed, 3 draws); fallback seed changes with the original seed and "
         "with r; negative / ill-typed / beyond-list r raises TypeError or ValueError and the refused stream keeps seed "
         "and next draws. Cross-process oracle (parent_checks): the observation of every configuration (both updaters, "
@@ -362,6 +362,10 @@ def run_case(case):
                 out.fail("fallback-insensitive:replication", {"stream": nm, "r": [r, r + 1],
                                                               "seed": exp_simple[nm][0]})
 
+    # ------------------------------------------------------------ stream sets held by StreamInformation objects
+    if simple_ok and r <= 10 ** 6:
+        _info_sets(out, specs, r)
+
     # ------------------------------------------------------------ StreamSeedUpdater
     exp_seeded = {}
     seeded_ok = True
@@ -425,6 +429,45 @@ def run_case(case):
     out.nontrivial = bool(n >= 2 and unlisted and r >= 1)
     out.info = {"r": r, "listed": len(listed), "unlisted": len(unlisted), "beyond": len(beyond)}
     return out
+
+
+def _info_sets(out, specs, r):
+    """Two stream sets (StreamInformation objects: the library's own 'default' stream + the case's named streams,
+    e.g. two scenarios compared with common random numbers): updating one set for a replication does not touch the
+    other, and both get the seeds that a set alone gets."""
+    from pydsol.core.streams import MersenneTwister, StreamInformation
+
+    def make():
+        info = StreamInformation()
+        for nm, og, _pre, _cur in specs:
+            if nm != "default":
+                info.add_stream(nm, MersenneTwister(og))
+        return info
+    try:
+        alone = make()
+        _simple().update_seeds(alone.get_streams(), r)
+        want = {nm: st.seed() for nm, st in alone.get_streams().items()}
+        a, b = make(), make()
+        upd = _simple()
+        upd.update_seeds(a.get_streams(), r)
+        seeds_a = {nm: st.seed() for nm, st in a.get_streams().items()}
+        drawn = {nm: st.next_float().hex() for nm, st in a.get_streams().items()}
+        upd.update_seeds(b.get_streams(), r + 1)
+        after = {nm: st.seed() for nm, st in a.get_streams().items()}
+        upd.update_seeds(b.get_streams(), r)
+        seeds_b = {nm: st.seed() for nm, st in b.get_streams().items()}
+        first_b = {nm: st.next_float().hex() for nm, st in b.get_streams().items()}
+    except Exception as e:
+        out.fail("info-sets-raise:" + type(e).__name__, repr(e))
+        return
+    if seeds_a != want or seeds_b != want:
+        out.fail("stream-sets:seed-differs-from-a-set-alone", {"r": r, "alone": want, "a": seeds_a, "b": seeds_b})
+    elif after != seeds_a:
+        out.fail("stream-sets:updating-one-set-changed-the-other",
+                 {"r": r, "changed": [nm for nm in after if after[nm] != seeds_a[nm]][:3]})
+    elif first_b != drawn:
+        out.fail("stream-sets:same-seeds-different-draws", {"r": r})
+    out.label("two-stream-sets")
 
 
 def _relations(out, uname, mk1, mk2, specs, order2, r, expected, unchanged, beyond, case):
